@@ -105,8 +105,56 @@ def detect(d, props, tier='quick', patchname='patch.diff'):
     return res
 
 
+def index():
+    """Write seeded/INDEX.md and per-change meta.json 'ran' fields from verify/detect results."""
+    root = os.path.join(HERE, 'seeded')
+    rows = []
+    for name in sorted(os.listdir(root)):
+        d = os.path.join(root, name)
+        if not os.path.isdir(d):
+            continue
+        meta = json.load(open(os.path.join(d, 'meta.json')))
+        ver = json.load(open(os.path.join(d, 'verify.json'))) if os.path.exists(
+            os.path.join(d, 'verify.json')) else {}
+        det = json.load(open(os.path.join(d, 'detect.json'))) if os.path.exists(
+            os.path.join(d, 'detect.json')) else {}
+        caught = dict((p, v['signatures'][0] if v.get('signatures') else 'exit %s' % v['exit'])
+                      for p, v in sorted(det.items()) if isinstance(v, dict) and v.get('exit') == 1)
+        harness = [p for p, v in det.items() if isinstance(v, dict) and v.get('exit') == 2]
+        meta['confirmed'] = {'patch_applies': ver.get('applies'),
+                             'existing_tests_pass_with_change': ver.get('tests_green'),
+                             'demo_passes_without_change': ver.get('demo_without') == 0,
+                             'demo_fails_with_change': ver.get('demo_with') not in (0, None)}
+        meta['what_was_run'] = ('tools_seeded.py verify (scratch copy of /repo: git apply, pytest, '
+                                'demo with/without); tools_seeded.py detect --all --tier quick '
+                                '(every registered quick check against the scratch copy)')
+        meta['caught_by'] = caught
+        if harness:
+            meta['harness_errors_in'] = harness
+        with open(os.path.join(d, 'meta.json'), 'w') as f:
+            json.dump(meta, f, indent=1, sort_keys=True)
+            f.write('\n')
+        rows.append((name, meta.get('property', name[:3]), meta.get('summary', ''),
+                     meta.get('needs', ''), caught, harness))
+    with open(os.path.join(root, 'INDEX.md'), 'w') as f:
+        f.write('# Seeded property-breaking changes\n\n'
+                'Written by sub-agents that saw only the property text and a scratch worktree; '
+                'each confirmed by `tools_seeded.py verify` (patch applies, the 116 tests stay '
+                'green, the demonstration fails with the change and passes without it). '
+                '"caught by" = registered quick checks (VERIF_SEED=1) that exit 1 with a '
+                'VIOLATION line on a scratch copy with the change applied.\n\n')
+        f.write('| id | property | change | needs | caught by (first signature) |\n|---|---|---|---|---|\n')
+        for name, prop, summ, needs, caught, harness in rows:
+            c = '; '.join('**%s** `%s`' % (p, sg) for p, sg in caught.items()) or '**MISSED**'
+            f.write('| %s | %s | %s | %s | %s |\n' % (name, prop, summ.replace('|', '/')[:300],
+                                                   needs.replace('|', '/')[:300], c))
+    print('INDEX.md: %d changes, %d caught' % (len(rows), sum(1 for r in rows if r[4])))
+
+
 def main():
     cmd = sys.argv[1]
+    if cmd == 'index':
+        return index()
     if cmd == 'verify':
         print(json.dumps(verify(sys.argv[2], sys.argv[3]), indent=1))
     elif cmd == 'detect':
